@@ -102,7 +102,8 @@ CONFIG.required_theorems = [
     "pub_roundtrip", "pub_reference", "crc_table_is_standard", "base32_roundtrip", "nonalphabet_no_bits",
     "alphabet_decodes", "accepted_is_wellformed", "crc_detects_burst32", "corrupted_body_rejected",
     "corrupted_crc_field_rejected", "corrupted_straddle_1_2_rejected", "corrupted_straddle_2_1_rejected",
-    "straddle_accepts_only_if", "replaced_symbol_changes_five_bits",
+    "straddle_accepts_only_if", "replaced_symbol_changes_five_bits", "window2_same_or_rejected",
+    "single_symbol_substitution_rejected",
 ]
 CONFIG.translators = [tables.gen_crc, tables.gen_base32, tables.gen_hashalgs]
 CONFIG.engines = [Engine("c17", ["exec_c17.c"], "drv_c17", gen, trivial=trivial)]
@@ -128,10 +129,13 @@ CONFIG.level_text = ("Kernel-checked, with the CRC table / alphabet / digit tabl
                      "field alone was hit, is rejected; windows of <=3 bytes STRADDLING the body/CRC boundary are rejected too (1 body + <=2 field "
                      "octets, 2 body + 1 field octet) -- not the burst theorem, because the reflected CRC is stored big-endian, but two "
                      "kernel-computed facts about the generated table (T_low16, T2_low24) and the linearity lemma straddle_accepts_only_if, "
-                     "which holds for error patterns of every length. A replaced symbol changes exactly one five-bit window of the accumulated bit string, at a "
-                     "multiple of five (replaced_symbol_changes_five_bits, any prefix and suffix). PARTIAL: the step from that window to "
-                     "'these <=3 consecutive bytes of the binary' is not proved; it is covered by the exhaustive per-string "
-                     "substitution/transposition correspondence (31 x length + all swaps per string).")
+                     "which holds for error patterns of every length. EVERY SINGLE-SYMBOL SUBSTITUTION (single_symbol_substitution_rejected): for every accepted string, every "
+                     "position whose character contributes five bits and every replacement that contributes five bits, the changed string "
+                     "is refused or KSI_base32Decode yields the identical octets (only padding bits / a position behind '=' changed) -- "
+                     "from replaced_symbol_changes_five_bits (string -> one five-bit window at a multiple of five), window_bytes (five bits "
+                     "lie in <=2 consecutive octets or the dropped tail) and window2_same_or_rejected (body / field / straddling). PARTIAL: "
+                     "adjacent transpositions (a ten-bit window, <=3 octets) are proved at the octet level only (corrupted_body_rejected, "
+                     "corrupted_straddle_2_1_rejected), not from the string; they are covered by the exhaustive per-string run.")
 CONFIG.level_note = ("Trusted: Lean kernel + standard axioms; translator/tables.py (regex over the preprocessed crc32.c/base32.c, refuses other "
                      "shapes) and translator/dump.c (hash lengths through the library API); bit-string model tied to addBits/readNextBits by "
                      "the differential run.")
